@@ -168,6 +168,27 @@ def run(ctx):
                            "cause": "working tree stores TypeClassification::Internal3 (byte 4) for composite type names; 3.0.0's TypeClassification::from_byte is unreachable!() on 4",
                            "how": "VERIF_SEED=%d harness c19 composite <dir>" % ctx.seed})
 
+    # ---- directed: the length the page checksum covers swept around every multiple of 64 (both directions, crash + clean image)
+    rc, out = ctx.harness("c19", ["lensweep", "40" if ctx.tier == "quick" else "400", "4162" if ctx.tier == "quick" else "8258",
+                                  "1" if ctx.tier == "quick" else "2"], timeout=2400)
+    m = re.search(r"lensweep cases=(\d+) bad=(\d+) lengths_at_multiples_of_1024=(\d+)", out or "")
+    if rc != 0 or not m:
+        s2_ok, detail = False, "harness c19 lensweep failed: %s" % (out or "")[-800:]
+    else:
+        cov["lensweep"] = {"cases": int(m.group(1)), "bad": int(m.group(2)), "lengths_at_multiples_of_1024": int(m.group(3))}
+        cov["evaluations"] += int(m.group(1))
+        if "LENSWEEP-WRITER-FAILED" in out:
+            s2_ok, detail = False, "lensweep: a writer failed: %s" % [l for l in out.split("\n") if l.startswith("LENSWEEP-WRITER-FAILED")][:3]
+        badl = [l for l in out.split("\n") if l.startswith("LENSWEEP-BAD")]
+        for l in badl[:1]:
+            kv = dict(x.split("=", 1) for x in l.split(" ")[1:6])
+            ctx.violation("c19-lensweep-%s-%s" % (kv["dir"], kv["image"]),
+                          "single-pair table u64 -> &[u8] whose root leaf's checksummed prefix is %s bytes, written by %s (%s image), is not read back "
+                          "with identical contents and check_integrity Ok(true) by %s: %s (%d of %s sweep cases fail)"
+                          % (kv["covered"], "the working tree" if kv["dir"] == "fwd" else "redb 3.0.0", kv["image"],
+                             "redb 3.0.0" if kv["dir"] == "fwd" else "the working tree", l.split(" ", 6)[-1][:300], len(badl), m.group(1)),
+                          {"how": "VERIF_SEED=%d harness c19 lensweep 0 %s 0   (value length %s, fill byte %s, direction %s)" % (ctx.seed, kv["covered"], kv["vlen"], kv["fill"], kv["dir"]),
+                           "line": l[:600], "failing_cases": [x[:200] for x in badl[:20]]})
     # ---- S2: the Coq reader on both releases' files
     for direction in ("fwd", "rev"):
         sub = {}
